@@ -6,6 +6,7 @@ R-C01-lexer    (O2) every lexer table entry consumes >= 1 char when it matches; 
 R-C01-loops    (O5) cursor loops leave on exhaustion
 R-C01-span     (O3) Span::new(a, b) with affine operands has a <= b
 """
+import os
 import re
 
 from .. import facts
@@ -357,41 +358,72 @@ def _spans(ck, p):
     ck.extra["span_sites_with_affine_operands"] = affine
 
 
-def _census(ck, p):
-    """thorough: O4 census — every bounds check / slice cut / subtraction in the parser-side bodies,
-    analysed with free slice parameters.  Internal helpers may rely on their callers, so the census
-    is informational: it is written to the evidence (proved / not proved counts), never an alarm."""
-    tot = {"proved": 0, "not_proved": 0}
-    per = {}
-    for f in sorted(p.fns.values(), key=lambda f: f.name):
-        if not SCOPE.match(f.name) or f.get("kind") in ("Closure", "Promoted") or len(f.blocks) > 400:
-            continue
-        seen = {}
+_CENSUS_P = None
 
-        def assert_hook(cx, fn, bb, t, st, want, other, reports):
-            if t.get("msg") not in ("bounds", "overflow") or str(t.get("op", "")).startswith(("Add", "Mul")):
-                return
-            ok = want is not None and all(entails(st.facts, c) for c in want)
-            k = (fn.name, bb)
-            seen[k] = seen.get(k, True) and ok
+
+def _census_one(name):
+    """one function of the census, in a forked worker with a wall-clock budget"""
+    import signal
+    p = _CENSUS_P
+    f = p.fns[name]
+    seen = {}
+
+    def assert_hook(cx, fn, bb, t, st, want, other, reports):
+        if t.get("msg") not in ("bounds", "overflow") or str(t.get("op", "")).startswith(("Add", "Mul")):
+            return
+        ok = want is not None and all(entails(st.facts, c) for c in want)
+        k = (fn.name, bb)
+        seen[k] = seen.get(k, True) and ok
+
+    def on_alarm(*_):
+        raise TimeoutError()
+    signal.signal(signal.SIGALRM, on_alarm)
+    signal.alarm(CENSUS_BUDGET_S)
+    try:
         cx = Ctx(p, {"call": span_hook(True), "assert": assert_hook})
-        try:
-            args, fs = generic_args(cx, f)
-            sub = analyze(cx, f, args, fs)
-        except Exception:
-            continue
+        args, fs = generic_args(cx, f)
+        sub = analyze(cx, f, args, fs)
         for r in sub.reports:
             if r["kind"].startswith("O4"):
                 k = (r["fn"], r["bb"])
                 seen[k] = seen.get(k, True) and bool(r["ok"])
-        a = sum(1 for v in seen.values() if v)
-        b = sum(1 for v in seen.values() if not v)
-        if a or b:
-            per[keyname(p, f)] = [a, b]
-        tot["proved"] += a
-        tot["not_proved"] += b
-    ck.extra["o4_census"] = {"totals": tot, "functions": len(per), "per_function": dict(sorted(per.items(), key=lambda kv: -kv[1][1])[:40])}
-    ck.notes.append("O4 census (thorough, informational): %d in-bounds / no-underflow obligations proved, %d not proved, over %d parser-side functions" % (tot["proved"], tot["not_proved"], len(per)))
+    except TimeoutError:
+        return name, None, "budget"
+    except Exception as e:
+        return name, None, type(e).__name__
+    finally:
+        signal.alarm(0)
+    return name, [sum(1 for v in seen.values() if v), sum(1 for v in seen.values() if not v)], None
+
+
+CENSUS_BUDGET_S = 20
+
+
+def _census(ck, p):
+    """thorough: O4 census — every bounds check / slice cut / subtraction in the parser-side bodies,
+    analysed with free slice parameters.  Internal helpers may rely on their callers, so the census
+    is informational: it is written to the evidence (proved / not proved counts), never an alarm.
+    Each function gets CENSUS_BUDGET_S seconds in a forked worker; the ones that run out are listed."""
+    global _CENSUS_P
+    import multiprocessing as mp
+    _CENSUS_P = p
+    names = [f.name for f in sorted(p.fns.values(), key=lambda f: f.name)
+             if SCOPE.match(f.name) and f.get("kind") not in ("Closure", "Promoted") and len(f.blocks) <= 400]
+    tot = {"proved": 0, "not_proved": 0}
+    per, skipped = {}, {}
+    with mp.get_context("fork").Pool(min(14, os.cpu_count() or 4)) as pool:
+        for name, ab, why in pool.imap_unordered(_census_one, names, chunksize=4):
+            if ab is None:
+                skipped[keyname(p, p.fns[name])] = why
+                continue
+            if ab[0] or ab[1]:
+                per[keyname(p, p.fns[name])] = ab
+            tot["proved"] += ab[0]
+            tot["not_proved"] += ab[1]
+    ck.extra["o4_census"] = {"totals": tot, "functions_analysed": len(names) - len(skipped), "functions_with_obligations": len(per), "not_analysed": dict(sorted(skipped.items())),
+                             "per_function": dict(sorted(per.items(), key=lambda kv: -kv[1][1])[:40])}
+    ck.notes.append("O4 census (thorough, informational): %d in-bounds / no-underflow obligations proved, %d not proved, over %d parser-side functions (%d more not analysed within %d s each)" % (
+        tot["proved"], tot["not_proved"], len(names) - len(skipped), len(skipped), CENSUS_BUDGET_S))
 
 
 def _loops(ck, p):
